@@ -556,6 +556,33 @@ func directed(rng *rand.Rand, row goldRow) []byte {
 	return append(out, le32(w2)...)
 }
 
+// literalCorners decodes, for every table row of a format with two 8-bit scalar source fields
+// (SOP2, SOPC), the words whose source fields refer to the literal dword in every combination
+// (both, first only, second only): both fields share the one trailing dword, so the size is 8
+// in all three. Deterministic - the random classes reach the (255, 255) combination too rarely.
+func (r *recorder) literalCorners(rng *rand.Rand, gold []goldRow) {
+	for _, row := range gold {
+		if row.f != "sop2" && row.f != "sopc" {
+			continue
+		}
+		fi := fmts[row.f]
+		for _, pr := range [][2]uint32{{255, 255}, {255, 2}, {2, 255}, {255, 193}} {
+			w0 := rng.Uint32()
+			w0 = (w0 &^ 0xffff) | pr[0] | pr[1]<<8
+			w0 = (w0 &^ (0x7f << 16)) | uint32(rng.Intn(100))<<16
+			mask := uint32((uint64(1)<<(fi.hi-fi.lo+1) - 1) << fi.lo)
+			w0 = (w0 &^ mask) | ((uint32(row.op) << fi.lo) & mask)
+			pm := uint32((uint64(1)<<fi.prefixHi - 1) << (32 - fi.prefixHi))
+			w0 = (w0 &^ pm) | (fi.enc & pm)
+			buf := append(append(le32(w0), le32(rng.Uint32())...), le32(rng.Uint32())...)
+			for c := 0; c < 2; c++ {
+				r.word(c, buf, nil, "litpair")
+				r.word(c, buf[:8], nil, "litpair/cut4")
+			}
+		}
+	}
+}
+
 func (r *recorder) randomWords(rng *rand.Rand, n int, gold []goldRow, base [][]byte) {
 	for i := 0; i < n; i++ {
 		c := rng.Intn(2)
@@ -755,6 +782,7 @@ func main() {
 			base = base[:4000]
 		}
 		r.reset()
+		r.literalCorners(rng, loadGolden(*gold))
 		r.randomWords(rng, *nrand, loadGolden(*gold), base)
 	}
 	w.Flush()
